@@ -17,6 +17,14 @@ open PsdVerif PsdVerif.Globals PsdVerif.Switches
 mutated by code that runs after import and read by such code. -/
 theorem current_tree_clean : ∀ c ∈ Generated.Globals.cells, c.clean = true := by decide
 
+/-- No function of src/psd_tools uses a module-level or class-level object of unknown, possibly mutable type
+that a call built at import (`np.random.RandomState(0)`, `random.Random()`, a class instance, a cache object):
+drawing from a shared generator or calling a method on a shared instance is state that one document's processing
+leaves for the next.  (Implied by `current_tree_clean`; stated separately because these cells are not containers
+and no dict / list / set snapshot sees them.) -/
+theorem current_tree_objects_quiet :
+    ∀ c ∈ Generated.Globals.cells, c.kind = .moduleObject → c.writtenAtRuntime = false := by decide
+
 /-- No code of src/psd_tools that runs after import leaves a process-wide switch of the standard
 library or of a third-party module (`attr.validators.set_disabled`, `logging.disable`,
 `warnings.simplefilter`, `np.seterr`, `sys.setrecursionlimit`, `os.environ[..] = ..`,
